@@ -71,5 +71,6 @@ struct _table_pdp8 table_pdp8[] =
   { "muy", 07405, 07777, OP_NONE },
 
   { "opr", 07000, 07000, OP_OPR },
+  { NULL,  0,     0,     0 },
 };
 
